@@ -188,9 +188,9 @@ macro_rules! hregion {
 }
 
 // ---- complement region: must pass ------------------------------------------------------------------------
-// @obl harness=c16_arith_add_ok id=C16.arith[add][int pairs/in range] tier=quick funcs="DataType::add,PromotedAdd::promoted_add" bounds="all 16 ordered pairs of {Int,BigInt,UInt,BigUInt}, full width" assume="promoted operands exact and promoted sum representable"
+// @obl harness=c16_arith_add_ok id=C16.arith[add][int_pairs/in_range] tier=quick funcs="DataType::add,PromotedAdd::promoted_add" bounds="all 16 ordered pairs of {Int,BigInt,UInt,BigUInt}, full width" assume="promoted operands exact and promoted sum representable"
 hregion!(c16_arith_add_ok, R_OK, ADD);
-// @obl harness=c16_arith_sub_ok id=C16.arith[sub][int pairs/in range] tier=quick funcs="DataType::sub,PromotedSub::promoted_sub" bounds="all 16 ordered pairs of {Int,BigInt,UInt,BigUInt}, full width" assume="promoted operands exact and promoted difference representable"
+// @obl harness=c16_arith_sub_ok id=C16.arith[sub][int_pairs/in_range] tier=quick funcs="DataType::sub,PromotedSub::promoted_sub" bounds="all 16 ordered pairs of {Int,BigInt,UInt,BigUInt}, full width" assume="promoted operands exact and promoted difference representable"
 hregion!(c16_arith_sub_ok, R_OK, SUB);
 // mul is split: CBMC has to decide a 64x64-bit multiplier-overflow query per pair (14 - 80 s each), one SAT instance
 // holding all 12 wide pairs does not finish in 300 s.
@@ -203,39 +203,39 @@ macro_rules! hmul_ok {
         }
     };
 }
-// @obl harness=c16_arith_mul_ok_narrow id=C16.arith[mul][Int|UInt x Int|UInt] tier=quick funcs="DataType::mul,PromotedMul::promoted_mul" bounds="the 4 ordered pairs of {Int,UInt}, every value (product always fits i64 / u64)"
+// @obl harness=c16_arith_mul_ok_narrow id=C16.arith[mul][Int|UInt_x_Int|UInt] tier=quick funcs="DataType::mul,PromotedMul::promoted_mul" bounds="the 4 ordered pairs of {Int,UInt}, every value (product always fits i64 / u64)"
 hmul_ok!(c16_arith_mul_ok_narrow, (v_int, v_int), (v_int, v_uint), (v_uint, v_int), (v_uint, v_uint));
-// @obl harness=c16_arith_mul_ok_signed id=C16.arith[mul][Int,BigInt|BigInt,Int|BigInt,BigInt/in range] tier=quick funcs="DataType::mul,PromotedMul::promoted_mul" bounds="full width" assume="i64 product representable"
+// @obl harness=c16_arith_mul_ok_signed id=C16.arith[mul][Int,BigInt|BigInt,Int|BigInt,BigInt/in_range] tier=thorough funcs="DataType::mul,PromotedMul::promoted_mul" bounds="full width" assume="i64 product representable"
 hmul_ok!(c16_arith_mul_ok_signed, (v_int, v_bigint), (v_bigint, v_int), (v_bigint, v_bigint));
-// @obl harness=c16_arith_mul_ok_mixed32 id=C16.arith[mul][BigInt,UInt|UInt,BigInt|Int,BigUInt|BigUInt,Int/in range] tier=quick funcs="DataType::mul,PromotedMul::promoted_mul" bounds="full width" assume="BigUInt operand < 2^63, i64 product representable"
+// @obl harness=c16_arith_mul_ok_mixed32 id=C16.arith[mul][BigInt,UInt|UInt,BigInt|Int,BigUInt|BigUInt,Int/in_range] tier=thorough funcs="DataType::mul,PromotedMul::promoted_mul" bounds="full width" assume="BigUInt operand < 2^63, i64 product representable"
 hmul_ok!(c16_arith_mul_ok_mixed32, (v_bigint, v_uint), (v_uint, v_bigint), (v_int, v_biguint), (v_biguint, v_int));
-// @obl harness=c16_arith_mul_ok_mixed64 id=C16.arith[mul][BigInt,BigUInt|BigUInt,BigInt/in range] tier=quick funcs="DataType::mul,PromotedMul::promoted_mul" bounds="full width" assume="BigUInt operand < 2^63, i64 product representable"
+// @obl harness=c16_arith_mul_ok_mixed64 id=C16.arith[mul][BigInt,BigUInt|BigUInt,BigInt/in_range] tier=thorough funcs="DataType::mul,PromotedMul::promoted_mul" bounds="full width" assume="BigUInt operand < 2^63, i64 product representable"
 hmul_ok!(c16_arith_mul_ok_mixed64, (v_bigint, v_biguint), (v_biguint, v_bigint));
-// @obl harness=c16_arith_mul_ok_uint_biguint id=C16.arith[mul][UInt,BigUInt/in range] tier=quick funcs="DataType::mul,PromotedMul::promoted_mul" bounds="full width" assume="u64 product representable"
+// @obl harness=c16_arith_mul_ok_uint_biguint id=C16.arith[mul][UInt,BigUInt/in_range] tier=thorough funcs="DataType::mul,PromotedMul::promoted_mul" bounds="full width" assume="u64 product representable"
 hmul_ok!(c16_arith_mul_ok_uint_biguint, (v_uint, v_biguint));
-// @obl harness=c16_arith_mul_ok_biguint_uint id=C16.arith[mul][BigUInt,UInt/in range] tier=quick funcs="DataType::mul,PromotedMul::promoted_mul" bounds="full width" assume="u64 product representable"
+// @obl harness=c16_arith_mul_ok_biguint_uint id=C16.arith[mul][BigUInt,UInt/in_range] tier=thorough funcs="DataType::mul,PromotedMul::promoted_mul" bounds="full width" assume="u64 product representable"
 hmul_ok!(c16_arith_mul_ok_biguint_uint, (v_biguint, v_uint));
-// @obl harness=c16_arith_mul_ok_unsigned64 id=C16.arith[mul][BigUInt,BigUInt/in range] tier=thorough funcs="DataType::mul,PromotedMul::promoted_mul" bounds="full width" assume="u64 product representable"
+// @obl harness=c16_arith_mul_ok_unsigned64 id=C16.arith[mul][BigUInt,BigUInt/in_range] tier=thorough funcs="DataType::mul,PromotedMul::promoted_mul" bounds="full width" assume="u64 product representable"
 hmul_ok!(c16_arith_mul_ok_unsigned64, (v_biguint, v_biguint));
-// @obl harness=c16_arith_div_ok id=C16.arith[div][int pairs/in range] tier=quick funcs="DataType::div,PromotedDiv::promoted_div" bounds="all 16 ordered pairs of {Int,BigInt,UInt,BigUInt}, full width" assume="promoted operands exact, divisor != 0, not i64::MIN / -1"
+// @obl harness=c16_arith_div_ok id=C16.arith[div][int_pairs/in_range] tier=quick funcs="DataType::div,PromotedDiv::promoted_div" bounds="all 16 ordered pairs of {Int,BigInt,UInt,BigUInt}, full width" assume="promoted operands exact, divisor != 0, not i64::MIN / -1"
 hregion!(c16_arith_div_ok, R_OK, DIV);
-// @obl harness=c16_arith_rem_ok id=C16.arith[rem][int pairs/in range] tier=quick funcs="DataType::rem,PromotedRem::promoted_rem" bounds="all 16 ordered pairs of {Int,BigInt,UInt,BigUInt}, full width" assume="promoted operands exact, divisor != 0, not i64::MIN % -1"
+// @obl harness=c16_arith_rem_ok id=C16.arith[rem][int_pairs/in_range] tier=quick funcs="DataType::rem,PromotedRem::promoted_rem" bounds="all 16 ordered pairs of {Int,BigInt,UInt,BigUInt}, full width" assume="promoted operands exact, divisor != 0, not i64::MIN % -1"
 hregion!(c16_arith_rem_ok, R_OK, REM);
 
 // ---- failing regions (each isolates one panic cause) ------------------------------------------------------
-// @obl harness=c16_arith_add_overflow id=C16.arith[add][int pairs/overflow] tier=quick funcs="DataType::add,PromotedAdd::promoted_add" bounds="all 16 ordered integer pairs restricted to: promoted sum not representable in i64 / u64"
+// @obl harness=c16_arith_add_overflow id=C16.arith[add][int_pairs/overflow] tier=quick funcs="DataType::add,PromotedAdd::promoted_add" bounds="all 16 ordered integer pairs restricted to: promoted sum not representable in i64 / u64"
 hregion!(c16_arith_add_overflow, R_OVERFLOW, ADD);
-// @obl harness=c16_arith_sub_overflow id=C16.arith[sub][int pairs/overflow] tier=quick funcs="DataType::sub,PromotedSub::promoted_sub" bounds="all 16 ordered integer pairs restricted to: promoted difference not representable in i64 / u64 (includes UInt a - UInt b with a < b)"
+// @obl harness=c16_arith_sub_overflow id=C16.arith[sub][int_pairs/overflow] tier=quick funcs="DataType::sub,PromotedSub::promoted_sub" bounds="all 16 ordered integer pairs restricted to: promoted difference not representable in i64 / u64 (includes UInt a - UInt b with a < b)"
 hregion!(c16_arith_sub_overflow, R_OVERFLOW, SUB);
-// @obl harness=c16_arith_mul_overflow id=C16.arith[mul][int pairs/overflow] tier=quick funcs="DataType::mul,PromotedMul::promoted_mul" bounds="all 16 ordered integer pairs restricted to: promoted product not representable in i64 / u64"
+// @obl harness=c16_arith_mul_overflow id=C16.arith[mul][int_pairs/overflow] tier=quick funcs="DataType::mul,PromotedMul::promoted_mul" bounds="all 16 ordered integer pairs restricted to: promoted product not representable in i64 / u64"
 hregion!(c16_arith_mul_overflow, R_OVERFLOW, MUL);
-// @obl harness=c16_arith_div_zero id=C16.arith[div][int pairs/divisor 0] tier=quick funcs="DataType::div,PromotedDiv::promoted_div" bounds="all 16 ordered integer pairs restricted to divisor == 0"
+// @obl harness=c16_arith_div_zero id=C16.arith[div][int_pairs/divisor_0] tier=quick funcs="DataType::div,PromotedDiv::promoted_div" bounds="all 16 ordered integer pairs restricted to divisor == 0"
 hregion!(c16_arith_div_zero, R_ZERO, DIV);
-// @obl harness=c16_arith_rem_zero id=C16.arith[rem][int pairs/divisor 0] tier=quick funcs="DataType::rem,PromotedRem::promoted_rem" bounds="all 16 ordered integer pairs restricted to divisor == 0"
+// @obl harness=c16_arith_rem_zero id=C16.arith[rem][int_pairs/divisor_0] tier=quick funcs="DataType::rem,PromotedRem::promoted_rem" bounds="all 16 ordered integer pairs restricted to divisor == 0"
 hregion!(c16_arith_rem_zero, R_ZERO, REM);
-// @obl harness=c16_arith_div_min_neg1 id=C16.arith[div][int pairs/MIN,-1] tier=quick funcs="DataType::div,PromotedDiv::promoted_div" bounds="the i64-promoted pairs restricted to i64::MIN / -1"
+// @obl harness=c16_arith_div_min_neg1 id=C16.arith[div][int_pairs/MIN,-1] tier=quick funcs="DataType::div,PromotedDiv::promoted_div" bounds="the i64-promoted pairs restricted to i64::MIN / -1"
 hregion!(c16_arith_div_min_neg1, R_MIN_NEG1, DIV);
-// @obl harness=c16_arith_rem_min_neg1 id=C16.arith[rem][int pairs/MIN,-1] tier=quick funcs="DataType::rem,PromotedRem::promoted_rem" bounds="the i64-promoted pairs restricted to i64::MIN % -1"
+// @obl harness=c16_arith_rem_min_neg1 id=C16.arith[rem][int_pairs/MIN,-1] tier=quick funcs="DataType::rem,PromotedRem::promoted_rem" bounds="the i64-promoted pairs restricted to i64::MIN % -1"
 hregion!(c16_arith_rem_min_neg1, R_MIN_NEG1, REM);
 
 // BigUInt >= 2^63 next to a signed operand: `as i64` turns it negative, after which the i64 operation can overflow
@@ -246,7 +246,7 @@ fn inexact_pairs(op: u8) {
     one(R_INEXACT, op, v_bigint(), v_biguint());
     one(R_INEXACT, op, v_biguint(), v_bigint());
 }
-// @obl harness=c16_arith_biguint_wrap id=C16.arith[add,sub,mul,div,rem][signed x BigUInt>=2^63] tier=quick funcs="DataType::add,DataType::sub,DataType::mul,DataType::div,DataType::rem,Promote::promote_rhs" bounds="{Int,BigInt} x BigUInt both orders, BigUInt operand >= 2^63, divisor != 0, all five operations"
+// @obl harness=c16_arith_biguint_wrap id=C16.arith[add,sub,mul,div,rem][signed_x_BigUInt>=2^63] tier=quick funcs="DataType::add,DataType::sub,DataType::mul,DataType::div,DataType::rem,Promote::promote_rhs" bounds="{Int,BigInt} x BigUInt both orders, BigUInt operand >= 2^63, divisor != 0, all five operations"
 #[kani::proof]
 #[kani::unwind(4)]
 fn c16_arith_biguint_wrap() {
@@ -286,7 +286,7 @@ fn all_float_pairs(op: u8) {
     fl(op, v_float(), v_biguint());
     fl(op, v_biguint(), v_float());
 }
-// @obl harness=c16_arith_float_total id=C16.arith[add,sub,mul,div,rem][float pairs] tier=quick funcs="DataType::add,DataType::sub,DataType::mul,DataType::div,DataType::rem" bounds="all 20 ordered pairs with a Float/Double operand, every bit pattern (NaN, inf, 0.0 divisor included)"
+// @obl harness=c16_arith_float_total id=C16.arith[add,sub,mul,div,rem][float_pairs] tier=quick funcs="DataType::add,DataType::sub,DataType::mul,DataType::div,DataType::rem" bounds="all 20 ordered pairs with a Float/Double operand, every bit pattern (NaN, inf, 0.0 divisor included)"
 #[kani::proof]
 #[kani::unwind(4)]
 fn c16_arith_float_total() {
@@ -329,7 +329,7 @@ fn non_numeric(op: u8) {
     nn(op, &i, &bl);
     std::mem::forget((n, bo, bl, i, d));
 }
-// @obl harness=c16_arith_non_numeric id=C16.arith[add,sub,mul,div,rem][Null|Bool|Blob operand] tier=quick funcs="DataType::add,DataType::sub,DataType::mul,DataType::div,DataType::rem" bounds="Null, Bool, 2-byte Blob against each other and against BigInt / Double (zero divisors included)" unwind=6
+// @obl harness=c16_arith_non_numeric id=C16.arith[add,sub,mul,div,rem][Null|Bool|Blob_operand] tier=quick funcs="DataType::add,DataType::sub,DataType::mul,DataType::div,DataType::rem" bounds="Null, Bool, 2-byte Blob against each other and against BigInt / Double (zero divisors included)" unwind=6
 #[kani::proof]
 #[kani::unwind(6)]
 fn c16_arith_non_numeric() {
@@ -342,7 +342,7 @@ fn c16_arith_non_numeric() {
 }
 
 // ---- abs ----------------------------------------------------------------------------------------------------------
-// @obl harness=c16_abs_ok id=C16.abs[all kinds/not MIN] tier=quick funcs="DataType::abs,NumericOps::abs,NumericAbs::numeric_abs" bounds="every Int/BigInt except MIN, every UInt/BigUInt/Float/Double, Null, Bool"
+// @obl harness=c16_abs_ok id=C16.abs[all_kinds/not_MIN] tier=quick funcs="DataType::abs,NumericOps::abs,NumericAbs::numeric_abs" bounds="every Int/BigInt except MIN, every UInt/BigUInt/Float/Double, Null, Bool"
 #[kani::proof]
 #[kani::unwind(4)]
 fn c16_abs_ok() {
